@@ -286,10 +286,17 @@ def rule_x4(chk: Check, ir, ix: Index):
     chk.count("X4-errortoken")
     chk.ok("X4-errortoken", "no-grammar-item", repo.PARSER_X)
     f = ix.get("Tokenizer.is_blank")
-    conds = [n for n in own_nodes(f.node) if isinstance(n, ast.If) and "ERRORTOKEN" in norm_stmt(n.test)]
     chk.count("X4-errortoken")
-    ok = len(conds) == 1 and "tok.string.isspace()" in norm_stmt(conds[0].test) and isinstance(conds[0].test, ast.BoolOp) \
-        and isinstance(conds[0].test.op, ast.And)
+    # decided on the filter's truth table (whatever its shape): a non-blank ERRORTOKEN is never dropped
+    from .c01 import _BlankEnv, _eval_paths
+    from ..pyflow import stmt_paths as _sp
+    try:
+        ps = _sp(f.node.body)
+        tokparam = [a.arg for a in f.node.args.args][1]
+        ok = all(not _eval_paths(ps, _BlankEnv(tokparam, "ERRORTOKEN", False, raw, prev))
+                 for raw in (False, True) for prev in (None, "NEWLINE", "NAME"))
+    except AnalysisError:
+        ok = False
     chk.require(ok, "X4-errortoken", "Tokenizer.is_blank:ERRORTOKEN", f.where,
                 "an ERRORTOKEN may be dropped only when it is whitespace; dropping others hides unknown characters from the grammar")
     # wildcard token items (OP / ANY_TOKEN / KEYWORD as a value) only in rules that are not reachable from Python-only contexts
